@@ -22,6 +22,10 @@ P = "partitura.performance"
 
 
 def run(ctx):
+    from ..rules import round5 as _R5
+    _R5.rule_clock_forwarded(ctx)
+    from ..rules import round5 as _R5
+    _R5.rule_no_truncated_quotient(ctx, ['partitura.io.importmatch:performed_part_from_match', 'partitura.utils.music:slice_ppart_by_time', 'partitura.performance:PerformedPart.from_note_array', 'partitura.performance:adjust_offsets_w_sustain'])
     from ..rules import extra as _X5
     _X5.rule_sound_off_not_before_release(ctx)
     from ..rules import extra as _X4
